@@ -637,6 +637,26 @@ Section Histories.
   Definition served_ok (q : routed) (rp : reply) (calls : list routed) : Prop :=
     (calls = [] /\ cached_reply q rp) \/ (calls = [q] /\ own_reply q rp).
 
+  (** [served_ok] in terms of the request's own headers and the rules of the path it is cached under *)
+  Lemma own_lreq q : own (lreq q) = headers_for_request (rules_of (cpath q)) (fst q).
+  Proof. unfold own_tuple, cpath. apply lreq_headers_for. Qed.
+  Lemma served_ok_spelled q rp calls :
+    served_ok q rp calls ->
+    let rules := rules_of (cpath q) in
+    let mine := headers_for_request rules (fst q) in
+    (calls = [] /\ exists f q1 hs1 ok1,
+        fst (fst (compute hs1 q1 ok1)) = f /\ cpath q1 = cpath q /\ headers_for_request rules (fst q1) = mine /\
+        ((rp_status rp = 304 /\ rp_body rp = [] /\ rp_headers rp = []) \/ rp = finishX (fst q) f mine ims_on true))
+    \/ (calls = [q] /\ exists f hs1 ok1 lm cached,
+        fst (fst (compute hs1 q ok1)) = f /\ rp = finishX (fst q) f mine lm cached).
+  Proof.
+    intros [[Hc (f & q1 & (hs1 & ok1 & C1) & P1 & O1 & Hr)] | [Hc (f & lm & cached & (hs1 & ok1 & C1) & Hr)]]; cbv zeta.
+    - left. split; [exact Hc|]. exists f, q1, hs1, ok1. split; [exact C1|]. split; [exact P1|].
+      rewrite !own_lreq in O1. rewrite P1 in O1. split; [exact O1|].
+      rewrite own_lreq in Hr. exact Hr.
+    - right. split; [exact Hc|]. exists f, hs1, ok1, lm, cached. split; [exact C1|]. rewrite own_lreq in Hr. exact Hr.
+  Qed.
+
   Lemma serveV_ok c hs now r0 :
     InvV c ->
     exists st' rp lg calls, serveX (c, hs) now r0 = Ok (st', rp, lg, calls) /\ InvV (fst st') /\ served_ok (prime r0) rp calls.
@@ -697,11 +717,11 @@ Proof.
 Qed.
 
 (** ---- 7. the [vary] header of a reply ---- *)
-Lemma finishV_vary negotiate rules_of r f lm cached :
-  let rp := finishV negotiate r f (own_tuple rules_of r) lm cached in
+Lemma finishV_vary negotiate rules_of r lr f lm cached :
+  let rp := finishV negotiate r f (own_tuple rules_of lr) lm cached in
   (rp_body rp <> [] ->
    assoc (B "vary") (rp_headers rp)
-   = Some (B "accept-encoding, range" ++ concat (map (fun ru => B ", " ++ ru_name ru) (rules_of (rq_path r)))))
+   = Some (B "accept-encoding, range" ++ concat (map (fun ru => B ", " ++ ru_name ru) (rules_of (rq_path lr)))))
   /\ (rp_body rp = [] -> assoc (B "vary") (rp_headers rp)
                          = match negotiate r f with Some _ => None | None => assoc (B "vary") (f_headers f) end).
 Proof.
@@ -710,6 +730,28 @@ Proof.
   - rewrite Hb. reflexivity.
   - apply apply_header_vary. exact Hb.
   - rewrite Hb. reflexivity.
+Qed.
+
+(** every rule header is a whole element of the list that follows the fixed part *)
+Lemma concat_names_split (g : rule -> bytes) (rules : list rule) ru :
+  In ru rules -> exists l1 l2, concat (map g rules) = concat (map g l1) ++ g ru ++ concat (map g l2) /\ rules = l1 ++ ru :: l2.
+Proof.
+  intros Hin. apply in_split in Hin as (l1 & l2 & ->). exists l1, l2. split; [|reflexivity].
+  rewrite map_app, concat_app. cbn [map concat]. reflexivity.
+Qed.
+Lemma finishV_lists_rule negotiate rules_of r lr f lm cached ru :
+  let rp := finishV negotiate r f (own_tuple rules_of lr) lm cached in
+  rp_body rp <> [] -> In ru (rules_of (rq_path lr)) ->
+  exists before after,
+    assoc (B "vary") (rp_headers rp) = Some (B "accept-encoding, range" ++ before ++ B ", " ++ ru_name ru ++ after) /\
+    (after = [] \/ exists rest, after = B ", " ++ rest).
+Proof.
+  intros rp Hb Hin. subst rp. rewrite (proj1 (finishV_vary negotiate rules_of r lr f lm cached) Hb).
+  destruct (concat_names_split (fun ru0 => B ", " ++ ru_name ru0) _ _ Hin) as (l1 & l2 & E & _).
+  exists (concat (map (fun ru0 => B ", " ++ ru_name ru0) l1)), (concat (map (fun ru0 => B ", " ++ ru_name ru0) l2)).
+  split; [apply f_equal; apply f_equal; etransitivity; [exact E|]; rewrite <- !app_assoc; reflexivity|].
+  destruct l2 as [|ru2 l2]; [left; reflexivity | right].
+  exists (ru_name ru2 ++ concat (map (fun ru0 => B ", " ++ ru_name ru0) l2)). cbn [map concat]. rewrite <- app_assoc. reflexivity.
 Qed.
 
 (** ---- 8. the server refines the finite map (page, transformed header list) -> response ---- *)
